@@ -271,6 +271,43 @@ fn check_entries(ch: &mut Choices, cx: &mut Ctx) -> R {
             }
         }
     }
+    // histories on one cache: manual entries (a stale or foreign table set by hand) and earlier populations must not
+    // survive `populate`, which is documented to discard any existing entries
+    if !headers.is_empty() {
+        let mut dw = load_map(&map, d.big);
+        let steps = 2 + ch.below(4);
+        let mut trace: Vec<String> = Vec::new();
+        for _ in 0..steps {
+            match ch.below(4) {
+                0 | 1 => {
+                    // a table that belongs to another offset (or an empty one) stored under a unit's offset
+                    let victim = &headers[ch.below(headers.len())];
+                    let donor = &headers[ch.below(headers.len())];
+                    let table = match dwarf.debug_abbrev.abbreviations(donor.debug_abbrev_offset()) {
+                        Ok(t) if donor.debug_abbrev_offset() != victim.debug_abbrev_offset() => std::sync::Arc::new(t),
+                        _ => std::sync::Arc::new(gimli::Abbreviations::default()),
+                    };
+                    dw.abbreviations_cache.set::<Rdr>(victim.debug_abbrev_offset(), table);
+                    trace.push(format!("set({:#x})", victim.debug_abbrev_offset().0));
+                    cx.label("cache history: manual entry before populate");
+                    continue;
+                }
+                2 => {
+                    dw.populate_abbreviations_cache(gimli::AbbreviationsCacheStrategy::Duplicates);
+                    trace.push("populate(Duplicates)".into());
+                }
+                _ => {
+                    dw.populate_abbreviations_cache(gimli::AbbreviationsCacheStrategy::All);
+                    trace.push("populate(All)".into());
+                }
+            }
+            // right after a populate the cache holds nothing but what that call put there
+            for (i, h) in headers.iter().enumerate() {
+                let got = unit_sig(&dw, h);
+                ensure_eq!(got, base[i], "c20/cache/history-differs", "after {:?}: unit {}", trace, i);
+            }
+        }
+    }
     // ---- (b) entry buffer reused across entries (and across an error)
     let mut shared = gimli::DebuggingInformationEntry::null();
     // first dirty the shared buffer with reads that end in an error: the same section truncated mid-unit
@@ -315,9 +352,8 @@ fn check_entries(ch: &mut Choices, cx: &mut Ctx) -> R {
             match (ra, rb) {
                 (Ok(x), Ok(y)) => {
                     ensure_eq!(x, y, "c20/entry-buffer/null-vs-entry", "unit {} entry #{}", ui, n);
-                    if x {
-                        ensure_eq!(entry_str(&shared), entry_str(&fresh), "c20/entry-buffer/differs", "unit {} entry #{}", ui, n);
-                    }
+                    // null entries too: the buffer must then look like a fresh buffer that has read a null entry
+                    ensure_eq!(entry_str(&shared), entry_str(&fresh), if x { "c20/entry-buffer/differs" } else { "c20/entry-buffer/null-differs" }, "unit {} entry #{}", ui, n);
                 }
                 (Err(x), Err(y)) => {
                     ensure_eq!(format!("{:?}", x), format!("{:?}", y), "c20/entry-buffer/error-differs", "unit {}", ui);
@@ -554,7 +590,7 @@ impl Prop for C20 {
         "C20"
     }
     fn rule(&self) -> &'static str {
-        "(a) pools of 2-4 generated FDEs (the C06 generator: every call-frame instruction, programs that fail in the CIE's initial instructions, mid-FDE, by row-stack or rule overflow, CIEs with 0, 1 and many initial rules, extra DW_CFA_GNU_args_size) evaluated on one UnwindContext (heap storage and fixed storages 2x2, 4x4, 3x5, 193x5) along every ordered pair, every triple for pools <= 3 and four generated histories of length 3-7 whose steps consume all rows, one row or three rows: each step's rows and outcome must equal those on a fresh context; (b) one DebuggingInformationEntry buffer reused across all entries of generated units vs a fresh buffer per entry; (c) EntriesTree::root called again after 1-3 partial traversals of generated length vs a fresh tree; (d) clones of the depth-first cursor, of LineRows, of operation iterators, of the CFI entries iterator and of the unit-header iterator taken at every position (the original is advanced further before the clone moves) vs an uninterrupted iteration; (e) Dwarf::unit for every unit with the abbreviation cache populated under Duplicates / All, in forward or reverse order and twice, incl. units sharing one abbreviation table and a unit whose abbreviation offset is invalid, vs the uncached result. Non-trivial = a pool with both failing and succeeding FDEs, or a re-rooted tree of >= 3 entries; distinct by choice string."
+        "(a) pools of 2-4 generated FDEs (the C06 generator: every call-frame instruction, programs that fail in the CIE's initial instructions, mid-FDE, by row-stack or rule overflow, CIEs with 0, 1 and many initial rules, extra DW_CFA_GNU_args_size) evaluated on one UnwindContext (heap storage and fixed storages 2x2, 4x4, 3x5, 193x5) along every ordered pair, every triple for pools <= 3 and four generated histories of length 3-7 whose steps consume all rows, one row or three rows: each step's rows and outcome must equal those on a fresh context; (b) one DebuggingInformationEntry buffer reused across all entries of generated units vs a fresh buffer per entry; (c) EntriesTree::root called again after 1-3 partial traversals of generated length vs a fresh tree; (d) clones of the depth-first cursor, of LineRows, of operation iterators, of the CFI entries iterator and of the unit-header iterator taken at every position (the original is advanced further before the clone moves) vs an uninterrupted iteration; (e) Dwarf::unit for every unit with the abbreviation cache populated under Duplicates / All, in forward or reverse order and twice, incl. units sharing one abbreviation table and a unit whose abbreviation offset is invalid, vs the uncached result, and histories of 2-5 steps on one cache mixing manual `set` of a foreign table with `populate` under either strategy (documented to discard existing entries): after every populate each unit equals the uncached result. Non-trivial = a pool with both failing and succeeding FDEs, or a re-rooted tree of >= 3 entries; distinct by choice string."
     }
     fn assumptions(&self) -> Vec<&'static str> {
         vec!["fresh state is the oracle: the same gimli code on newly created contexts, buffers, trees, iterators and an unpopulated cache"]
